@@ -4493,7 +4493,7 @@ class ResponseFuture(object):
             )
             return
 
-        if self._connection is not None:
+        if self._connection is not None and self._req_id is not None:
             try:
                 self._connection._requests.pop(self._req_id)
             # PYTHON-1044
@@ -4612,6 +4612,8 @@ class ResponseFuture(object):
                                                             encoder=self._protocol_handler.encode_message,
                                                             decoder=self._protocol_handler.decode_message,
                                                             result_metadata=result_meta)
+            # the attempt the client timeout will have to give up on
+            self._req_id = request_id
             self.attempted_hosts.append(host)
             return request_id
         except NoConnectionsAvailable as exc:
@@ -4712,8 +4714,15 @@ class ResponseFuture(object):
             # try to submit the original prepared statement on some other host
             self.send_request()
 
+    def _attempt_answered(self, connection, response):
+        # Once the attempt tracked for the client timeout has been answered its stream id is
+        # free again and may already belong to another request: _on_timeout must not touch it.
+        if connection is self._connection and getattr(response, 'stream_id', self._req_id) == self._req_id:
+            self._req_id = None
+
     def _set_result(self, host, connection, pool, response):
         try:
+            self._attempt_answered(connection, response)
             self.coordinator_host = host
             if pool:
                 pool.return_connection(connection)
@@ -4884,6 +4893,7 @@ class ResponseFuture(object):
         Handle the response to our attempt to prepare a statement.
         If it succeeded, run the original query again against the same host.
         """
+        self._attempt_answered(connection, response)
         if pool:
             pool.return_connection(connection)
 
